@@ -484,8 +484,14 @@ func ParallelizedAccumulation(input ParallelizedAccumulationInput) (output Paral
 			return output, err
 		}
 	}
-	// Process results from each service accumulation
+	// Process results from each service accumulation in ascending service order: the sequences u, t′ and p are
+	// concatenated in this order, so it must not depend on map iteration
+	serviceIDs := make([]types.ServiceID, 0, len(s))
 	for service_id := range s {
+		serviceIDs = append(serviceIDs, service_id)
+	}
+	slices.Sort(serviceIDs)
+	for _, service_id := range serviceIDs {
 		singleOutput, ok := cache[service_id]
 		if !ok {
 			singleOutput, err = runSingleReplaceService(service_id, singleInput)
@@ -781,7 +787,8 @@ func SingleServiceAccumulation(input SingleServiceAccumulationInput) (output Sin
 		}
 	}
 
-	sort.Slice(iT, func(i, j int) bool {
+	// stable: transfers of one sender keep the order in which they were emitted
+	sort.SliceStable(iT, func(i, j int) bool {
 		return iT[i].SenderID < iT[j].SenderID
 	})
 
